@@ -53,13 +53,20 @@ CGt1 == -6
 \* 32 sigma^2 s^2 : the factor between -ln(v) and the squared distance in (1/4 px)^2
 ConfKNum(c) == 32 * c.sn * c.sn * c.s * c.s
 ConfK(c) == ConfKNum(c) \div (c.sd * c.sd)
-ConfRows(c) == c.H \div c.s
-ConfCols(c) == c.W \div c.s
+\* grid size along an axis of `size` px: size / s when the stride divides the size.  Otherwise the property's
+\* "H / stride" is not an integer: the grid 0, s, 2s, ... < size has ceil(size / s) samples, a grid without the
+\* partial last cell floor(size / s) - both are accepted, the OBSERVED count decides which cells are judged
+\* (cell k of an axis always sits at image coordinate k * s).
+GridN(size, st, obs) == IF size % st = 0 THEN size \div st
+                        ELSE IF obs \in {size \div st, size \div st + 1} /\ obs >= 1 THEN obs ELSE size \div st + 1
+ObsDim(c, k) == IF "shape" \in DOMAIN c THEN (IF Len(c.shape) = 3 THEN c.shape[k] ELSE 0) ELSE 0
+ConfRows(c) == GridN(c.H, c.s, ObsDim(c, 2))
+ConfCols(c) == GridN(c.W, c.s, ObsDim(c, 3))
 ConfChannels(c) == c.nodes
 
 ConfCaseOK(c) ==
     /\ c.variant \in {"single", "multi", "centroid"}
-    /\ c.s \in 1..64 /\ c.H \in 1..256 /\ c.W \in 1..256 /\ c.H % c.s = 0 /\ c.W % c.s = 0
+    /\ c.s \in 1..64 /\ c.H \in 1..256 /\ c.W \in 1..256
     /\ c.sn \in 1..16 /\ c.sd \in 1..4 /\ ConfKNum(c) % (c.sd * c.sd) = 0
     /\ ConfK(c) <= 100000      \* 1/K >= 10 x the 1e-6 tie tolerance of `amax`; 103 K < 2^31
     /\ c.ninst \in 0..Len(c.pts)
@@ -168,13 +175,13 @@ Q == 10000
 PNan == 1000000
 PInf == 1000001
 
-PafRows(c) == c.H \div c.s
-PafCols(c) == c.W \div c.s
+PafRows(c) == GridN(c.H, c.s, ObsDim(c, 2))
+PafCols(c) == GridN(c.W, c.s, ObsDim(c, 3))
 PafE(c) == Len(c.edges)
 
 PafCaseOK(c) ==
     /\ c.kind \in {"single", "multi"}
-    /\ c.s \in 1..64 /\ c.H \in 1..64 /\ c.W \in 1..64 /\ c.H % c.s = 0 /\ c.W % c.s = 0
+    /\ c.s \in 1..64 /\ c.H \in 1..64 /\ c.W \in 1..64
     /\ (c.kind = "single" => Len(c.pts) = 1)
     /\ \A a \in 1..Len(c.pts) : \A n \in 1..Len(c.pts[a]) : \A k \in 1..2 :
           c.pts[a][n][k] = NaN \/ c.pts[a][n][k] \in (-4)..132      \* keeps every product below 2^31
@@ -186,8 +193,8 @@ PafCaseOK(c) ==
 \*   "margin"  otherwise: only nodes on x = 0 / y = 0 or in the bottom/right strip between the last
 \*             grid coordinate and the image border.  The property is silent there (DESIGN.md C05).
 PafStatus(c, animal) ==
-    LET xl == 2 * (((c.W - 1) \div c.s) * c.s)
-        yl == 2 * (((c.H - 1) \div c.s) * c.s)
+    LET xl == 2 * ((PafCols(c) - 1) * c.s)      \* the last grid coordinate (= ((W - 1) div s) * s on the ceil grid)
+        yl == 2 * ((PafRows(c) - 1) * c.s)
         In(p) == Visible(p) /\ 0 < p[1] /\ p[1] < xl /\ 0 < p[2] /\ p[2] < yl
         Touch(p) == Visible(p) /\ 0 <= p[1] /\ p[1] <= 2 * c.W /\ 0 <= p[2] /\ p[2] <= 2 * c.H
     IN IF \E n \in 1..Len(animal) : In(animal[n]) THEN "in"
